@@ -737,7 +737,7 @@ func writeEvidence(prop, tier string, seed uint64, info propInfo, s *summary, wa
 	faults := map[string]int64{}
 	var notFired []string
 	for _, k := range []string{"tick_delivered", "tick_delivered_in_stmt", "stall_in_stmt", "flusher_parked_on_lock", "tick_queued_while_busy", "tick_dropped",
-		"clean_restart", "recoveries", "recoveries_with_redo", "image_boundary", "image_wal", "image_flush", "forced_flush",
+		"clean_restart", "recoveries", "recoveries_with_redo", "image_boundary", "image_wal", "image_flush", "forced_flush", "open_error_injected",
 		"image_flush_none", "image_flush_only-new", "image_flush_existing-without-all-new", "image_flush_all-pages-no-header", "image_flush_other", "image_flush_complete",
 		"image_wal_len_write", "image_wal_body_write", "image_wal_sync_write", "image_wal_len_sync", "image_wal_body_sync", "image_wal_sync_sync",
 		"lru_evict", "lru_refuse", "cold_read", "replay_redo", "replay_skip", "abandoned_cache_full"} {
